@@ -70,7 +70,7 @@ def run(ctx):
                 'Gen_IOStreams with the predicted file contents, close() values and the set of allowed standard outputs (a system() '
                 'child\'s output lies exactly between the program\'s output before and after the call); or a history of print / '
                 'printf / print with two arguments to stdout and its aliases, in default, CSV and TSV output mode, with Config.Output '
-                'a plain writer or a *bufio.Writer of 3, 16 or 4096 bytes (quick: 9 of the 12 mode x writer combinations), failing at byte k for every k (only "the run fails" is '
+                'a plain writer or a *bufio.Writer of 3, 16 or 4096 bytes (quick: 9 of the 12 mode x writer combinations; histories of 2 actions, thorough: also of 3 actions for 4 of the combinations), failing at byte k for every k (only "the run fails" is '
                 'judged) or never failing (everything must arrive); or a write-level schedule of StdoutShare; or a random run '
                 'recorded from the real interpreter; non-trivial when it writes to a file, a command or an alias of stdout')
     ctx.assumptions += iocommon.ASSUMPTIONS + [
@@ -142,8 +142,12 @@ def run(ctx):
     if not q:
         iocommon.replay(ctx, 'delivery4.ndjson', 'delivery-depth4', iocommon.corrupt, 2000)
         iocommon.replay(ctx, 'delivery_sim.ndjson', 'delivery-walks', iocommon.corrupt, 200)
-    fail = ctx.cfg('Gen_IOStreams', name='Gen_failure', constants={'Family': '"failure"', 'Depth': 2 if q else 3, 'Rich': 1 if q else 2, 'Runs': 1})
+    fail = ctx.cfg('Gen_IOStreams', name='Gen_failure', constants={'Family': '"failure"', 'Depth': 2, 'Rich': 1 if q else 2, 'Runs': 1})
     ctx.tlc('Gen_IOStreams', fail, capture='failure.ndjson', timeout=900)
+    if not q:
+        # three actions: the plain and the 4096-byte writer in default mode, the plain and the 3-byte writer in CSV mode
+        fail3 = ctx.cfg('Gen_IOStreams', name='Gen_failure3', constants={'Family': '"failure"', 'Depth': 3, 'Rich': 0, 'Runs': 1})
+        ctx.tlc('Gen_IOStreams', fail3, capture='failure.ndjson', timeout=1500, heap='8g')
     sf = iocommon.replay(ctx, 'failure.ndjson', 'stdout-failure', iocommon.corrupt_failure, 200)
     ncsv = iocommon.split_cases(ctx, 'failure.ndjson', 'failure_csv.ndjson', lambda c: c['cfg']['omode'] != 'default')
     if ncsv < 200:
